@@ -182,7 +182,7 @@ fn run_set<S: PS>(ctx: &Ctx) -> Acc {
     // ---- volume pass: derived == generated, bytes only, no reference in the loop (C04 ties generation to the
     // reference): an event of probability ~1e-7 per key inside the derivation is within reach of a few
     // million keys (quick 250 000 per set: a sample; thorough 8 000 000 per set)
-    let n_vol = ctx.opt_u64("vol", ctx.budget(250_000, 8_000_000)) as usize;
+    let n_vol = ctx.opt_u64("vol", ctx.budget(250_000, 8_000_000)) as usize / if ctx.checked_build() { 8 } else { 1 };
     let chunks = 256usize;
     let accs = par_map(chunks, |c| {
         let mut a = Acc::new();
